@@ -117,11 +117,16 @@ def tasks(tier, seed):
         ts += c07join.tasks(tier, seed)
     except ImportError:
         pass
+    from . import kinds
+    ts += [(kinds.task_kinds, ("C07", op)) for op in kinds.OPS["C07"][1]]
     return ts
 
 
 def replay(o):
     w = o["witness"]
+    if w.get("kind") == "kinds":
+        from . import kinds
+        return kinds.replay(o)
     if w["kind"].startswith("c07.join") or w["kind"] == "c07.concrete":
         from . import c07join
         return c07join.replay(o)
